@@ -38,6 +38,7 @@ pub open spec fn st_funds_eq(a: State, b: State) -> bool {
         old(rt).validated@.is_none(),
     ensures
         st_funds_eq(*old(state), *final(state)),
+        /*C11*/ r.is_ok() ==> final(rt).validated@.is_some() && (old(rt).msg.caller == info_of(*old(state))->Some_0.owner || info_of(*old(state))->Some_0.pending_owner_address == Some(old(rt).msg.caller)),
         r.is_ok() ==> info_of(*old(state)).is_some() && info_of(*final(state)).is_some() && ({
             let i0 = info_of(*old(state))->Some_0;
             let i1 = info_of(*final(state))->Some_0;
@@ -86,6 +87,7 @@ pub open spec fn st_funds_eq(a: State, b: State) -> bool {
         old(rt).validated@.is_none(),
     ensures
         st_funds_eq(*old(state), *final(state)),
+        /*C11*/ r.is_ok() ==> final(rt).validated@.is_some() && old(rt).msg.caller == info_of(*old(state))->Some_0.owner,
         r.is_ok() ==> info_of(*old(state)).is_some() && info_of(*final(state)).is_some() && ({
             let i0 = info_of(*old(state))->Some_0;
             let i1 = info_of(*final(state))->Some_0;
@@ -103,6 +105,7 @@ pub open spec fn st_funds_eq(a: State, b: State) -> bool {
         0 <= old(rt).epoch, 0 <= rt_policy().worker_key_change_delay, old(rt).epoch + rt_policy().worker_key_change_delay <= i64::MAX,
     ensures
         st_funds_eq(*old(state), *final(state)),
+        /*C11*/ r.is_ok() ==> final(rt).validated@.is_some() && old(rt).msg.caller == info_of(*old(state))->Some_0.owner,
         r.is_ok() ==> info_of(*old(state)).is_some() && info_of(*final(state)).is_some() && ({
             let i0 = info_of(*old(state))->Some_0;
             let i1 = info_of(*final(state))->Some_0;
